@@ -1,42 +1,30 @@
 import Nsq.Proofs.LookupSync
-/-! The convergence invariant of C16: for every connected peer, what that lookupd holds is justified by
-nsqd's maps and the notifications still pending. -/
+/-! The convergence invariant of C16 (tree with F14 + F15): for every connected peer, what that lookupd holds is
+justified by the names currently live in nsqd's maps and by the notifications still pending. No hypothesis on the
+order in which notifications are consumed is needed. -/
 namespace Nsq.Proofs.LookupSync
 open Nsq.Model.LookupSync
 
-/-- in the maps and not exiting -/
-def Live (s : State) (r : Ref) : Prop := r ∈ s.objs ∧ r ∉ s.dead
-/-- live and its creation notification has been consumed -/
-def Settled (s : State) (r : Ref) : Prop := Live s r ∧ r ∉ s.bag
-/-- a pending UNREGISTER will remove key `k` -/
-def Cover (s : State) (k : Key) : Prop :=
-  ∃ r ∈ s.bag, r ∈ s.dead ∧ r.topic = k.1 ∧ (r.chan = k.2 ∨ r.chan = "")
+/-- a notification for exactly that name is pending (it will set the key from the then-current state) -/
+def ExactPending (s : State) (k : Key) : Prop := ∃ r ∈ s.bag, r.topic = k.1 ∧ r.chan = k.2
 
-/-- what a connected lookupd holds: every settled live object, and nothing that is not live or about to be removed -/
+/-- the key of a channel that is still in the map of a topic that is exiting, whose notification is pending
+(`UNREGISTER topic` will remove the key; the topic cannot be re-created before the channel itself is deleted) -/
+def TopicCover (s : State) (k : Key) : Prop :=
+  k.2 ≠ "" ∧ (∃ r ∈ s.bag, r.topic = k.1 ∧ r.chan = "") ∧ ¬ TopicLive s.objs s.dead k.1 ∧
+    ∃ x ∈ s.objs, x.key = k ∧ x ∉ s.dead
+
+/-- what a connected lookupd holds: every live name without a pending notification, and nothing that is neither
+live nor about to be corrected by a pending notification -/
 def PeerOK (s : State) (p : Peer) : Prop :=
   p.conn = .up →
-    (∀ r, Settled s r → r.key ∈ p.regs) ∧
-    (∀ k ∈ p.regs, (∃ r, Live s r ∧ r.key = k) ∨ Cover s k)
+    (∀ k, NameLive s.objs s.dead k → ¬ ExactPending s k → k ∈ p.regs) ∧
+    (∀ k ∈ p.regs, NameLive s.objs s.dead k ∨ ExactPending s k ∨ TopicCover s k)
 
 structure Inv (s : State) : Prop where
-  pendingLive : ∀ r ∈ s.bag, r ∉ s.dead → r ∈ s.objs
   chanTopic : ChanHasTopic s.objs
+  uniq : ∀ x ∈ s.objs, ∀ y ∈ s.objs, x.key = y.key → x = y
   peers : ∀ p ∈ s.peers, PeerOK s p
-
-/-- every exiting object still in the maps has its UNREGISTER pending (needed when a peer reconnects) -/
-def DyingPending (s : State) : Prop := ∀ r ∈ s.objs, r ∈ s.dead → r ∈ s.bag
-
-/-- the schedule hypothesis `NoStaleNotify`, per step -/
-def Orderly (s : State) : Step → Prop
-  | .notify r outs =>
-    (r ∈ s.dead → r.chan ≠ "" → ¬ ∃ x, Settled s x ∧ x.key = r.key) ∧        -- NoStaleUnregister (channel)
-    (r ∈ s.dead → r.chan = "" → ¬ ∃ x, Settled s x ∧ x.topic = r.topic) ∧     -- NoStaleUnregister (topic)
-    (r ∉ s.dead → r.chan ≠ "" →
-       (∃ T, Live s T ∧ T.key = (r.topic, "")) ∨ Cover s (r.topic, "")) ∧     -- no REGISTER of a channel after its topic's UNREGISTER
-    ((∃ p ∈ s.peers, p.conn = .down) → ∀ x ∈ s.objs, x ∈ s.dead → x ∈ s.bag)  -- no reconnect re-REGISTER of a dying object
-  | .tick _ => (∃ p ∈ s.peers, p.conn = .down) → DyingPending s
-  | .addPeer _ _ => DyingPending s
-  | _ => True
 
 theorem mem_mapOutcomes {f : Peer → Outcome → Peer} {ps : List Peer} {outs : List Outcome} {q : Peer}
     (h : q ∈ mapOutcomes f ps outs) : ∃ p ∈ ps, ∃ o, q = f p o := by
@@ -57,185 +45,183 @@ theorem mem_mapOutcomes {f : Peer → Outcome → Peer} {ps : List Peer} {outs :
       · obtain ⟨p', hp', o', ho⟩ := ih h
         exact ⟨p', by simp [hp'], o', ho⟩
 
-theorem mem_erase_ne {α} [DecidableEq α] {a b : α} {l : List α} (h : a ≠ b) : a ∈ l.erase b ↔ a ∈ l :=
-  List.mem_erase_of_ne h
-
-theorem eq_of_mem_not_mem_erase {α} [DecidableEq α] {a b : α} {l : List α} (h1 : a ∈ l) (h2 : a ∉ l.erase b) :
-    a = b := by
-  apply Classical.byContradiction
-  intro hne
-  exact h2 ((List.mem_erase_of_ne hne).mpr h1)
-
-/-- a pending UNREGISTER other than the processed notification stays pending -/
-theorem cover_erase {s : State} {r : Ref} {k : Key} (hc : Cover s k)
-    (hne : ∀ x, x ∈ s.bag → x ∈ s.dead → x.topic = k.1 → (x.chan = k.2 ∨ x.chan = "") → x ≠ r) :
-    Cover { s with bag := s.bag.erase r } k := by
-  obtain ⟨x, hx, hd, ht, hch⟩ := hc
-  exact ⟨x, (List.mem_erase_of_ne (hne x hx hd ht hch)).mpr hx, hd, ht, hch⟩
-
-/-- the peer-local effect of processing notification `r` with outcome `o` -/
-theorem peerOK_notify {s : State} {r : Ref} {p : Peer} {o : Outcome} (hI : Inv s) (hp : p ∈ s.peers)
-    (hr : r ∈ s.bag) (outs : List Outcome) (hO : Orderly s (.notify r outs)) :
-    PeerOK { s with bag := s.bag.erase r, peers := [] }
-      (command s.objs (if s.dead.contains r then unregister r.topic r.chan else register r.topic r.chan) p o) := by
-  obtain ⟨g1, g1', g3, g2⟩ := hO
-  have hP := hI.peers p hp
-  -- settled objects after the step
-  have settled_old : ∀ x, Settled { s with bag := s.bag.erase r, peers := [] } x → x ≠ r → Settled s x := by
-    intro x ⟨hl, hb⟩ hne
-    exact ⟨hl, fun hxb => hb ((List.mem_erase_of_ne hne).mpr hxb)⟩
-  have live_same : ∀ x, Live { s with bag := s.bag.erase r, peers := [] } x ↔ Live s x := fun x => Iff.rfl
-  by_cases hdead : r ∈ s.dead
-  · -- UNREGISTER
-    have hcont : s.dead.contains r = true := by simpa using hdead
-    simp only [hcont, if_true]
-    -- facts used for both the connected and the reconnecting case
-    have keep : ∀ x, Settled { s with bag := s.bag.erase r, peers := [] } x →
-        (if r.chan = "" then x.key.1 ≠ r.topic else x.key ≠ (r.topic, r.chan)) ∧ Settled s x := by
-      intro x hx
-      have hne : x ≠ r := by
-        intro he; subst he; exact hx.1.2 hdead
-      have hs := settled_old x hx hne
-      refine ⟨?_, hs⟩
-      split
-      · rename_i hc
-        intro heq
-        exact g1' hdead hc ⟨x, hs, heq⟩
-      · rename_i hc
-        intro heq
-        exact g1 hdead hc ⟨x, hs, by simpa [Ref.key] using heq⟩
-    have cover_keep : ∀ k, Cover s k → (if r.chan = "" then k.1 ≠ r.topic else k ≠ (r.topic, r.chan)) →
-        Cover { s with bag := s.bag.erase r, peers := [] } k := by
-      intro k hc hrem
-      obtain ⟨x, hx, hd, ht, hch⟩ := hc
-      by_cases hxr : x = r
-      · subst hxr
-        exfalso
-        split at hrem
-        · exact hrem ht.symm
-        · rename_i hc
-          rcases hch with hch | hch
-          · exact hrem (Prod.ext ht.symm hch.symm)
-          · exact hc hch
-      · exact ⟨x, (List.mem_erase_of_ne hxr).mpr hx, hd, ht, hch⟩
-    unfold command
-    cases hconn : p.conn <;> cases o <;> simp only [PeerOK] <;> intro hup <;> try (simp at hup)
-    · -- down, ok : reconnect, callback, then UNREGISTER
-      refine ⟨?_, ?_⟩
-      · intro x hx
-        obtain ⟨hrem, hs⟩ := keep x hx
-        rw [mem_unregister]
-        exact ⟨(mem_callbackRegs s.objs hI.chanTopic _).mpr ⟨x, hs.1.1, rfl⟩, hrem⟩
-      · intro k hk
-        rw [mem_unregister] at hk
-        obtain ⟨hk1, hrem⟩ := hk
-        obtain ⟨x, hx, rfl⟩ := (mem_callbackRegs s.objs hI.chanTopic _).mp hk1
-        by_cases hxd : x ∈ s.dead
-        · right
-          have hxb := g2 ⟨p, hp, hconn⟩ x hx hxd
-          exact cover_keep _ ⟨x, hxb, hxd, rfl, Or.inl rfl⟩ hrem
-        · left; exact ⟨x, ⟨hx, hxd⟩, rfl⟩
-    · -- up, ok
-      have ⟨e1, e2⟩ := hP hconn
-      refine ⟨?_, ?_⟩
-      · intro x hx
-        obtain ⟨hrem, hs⟩ := keep x hx
-        rw [mem_unregister]
-        exact ⟨e1 x hs, hrem⟩
-      · intro k hk
-        rw [mem_unregister] at hk
-        obtain ⟨hk1, hrem⟩ := hk
-        rcases e2 k hk1 with h | h
-        · left; exact h
-        · right; exact cover_keep k h hrem
-  · -- REGISTER
-    have hcont : s.dead.contains r = false := by simpa using hdead
-    simp only [hcont, Bool.false_eq_true, if_false]
-    have hrobj : r ∈ s.objs := hI.pendingLive r hr hdead
-    have cover_keep : ∀ k, Cover s k → Cover { s with bag := s.bag.erase r, peers := [] } k := by
-      intro k ⟨x, hx, hd, ht, hch⟩
-      have hxr : x ≠ r := by intro he; subst he; exact hdead hd
-      exact ⟨x, (List.mem_erase_of_ne hxr).mpr hx, hd, ht, hch⟩
-    have new_keys : ∀ k, (k = (r.topic, r.chan) ∨ k = (r.topic, "")) →
-        (∃ x, Live s x ∧ x.key = k) ∨ Cover { s with bag := s.bag.erase r, peers := [] } k := by
-      intro k hk
-      rcases hk with rfl | rfl
-      · left; exact ⟨r, ⟨hrobj, hdead⟩, rfl⟩
-      · by_cases hc : r.chan = ""
-        · left; exact ⟨r, ⟨hrobj, hdead⟩, by simp [Ref.key, hc]⟩
-        · rcases g3 hdead hc with ⟨T, hT, hTk⟩ | hcov
-          · left; exact ⟨T, hT, hTk⟩
-          · right; exact cover_keep _ hcov
-    unfold command
-    cases hconn : p.conn <;> cases o <;> simp only [PeerOK] <;> intro hup <;> try (simp at hup)
-    · -- down, ok
-      refine ⟨?_, ?_⟩
-      · intro x hx
-        rw [mem_register]
-        exact Or.inr (Or.inr ((mem_callbackRegs s.objs hI.chanTopic _).mpr ⟨x, hx.1.1, rfl⟩))
-      · intro k hk
-        rw [mem_register] at hk
-        rcases hk with hk | hk | hk
-        · exact new_keys k (Or.inl hk)
-        · exact new_keys k (Or.inr hk)
-        · obtain ⟨x, hx, rfl⟩ := (mem_callbackRegs s.objs hI.chanTopic _).mp hk
-          by_cases hxd : x ∈ s.dead
-          · right
-            have hxb := g2 ⟨p, hp, hconn⟩ x hx hxd
-            exact cover_keep _ ⟨x, hxb, hxd, rfl, Or.inl rfl⟩
-          · left; exact ⟨x, ⟨hx, hxd⟩, rfl⟩
-    · -- up, ok
-      have ⟨e1, e2⟩ := hP hconn
-      refine ⟨?_, ?_⟩
-      · intro x hx
-        rw [mem_register]
-        by_cases hxr : x = r
-        · subst hxr; exact Or.inl rfl
-        · exact Or.inr (Or.inr (e1 x (settled_old x hx hxr)))
-      · intro k hk
-        rw [mem_register] at hk
-        rcases hk with hk | hk | hk
-        · exact new_keys k (Or.inl hk)
-        · exact new_keys k (Or.inr hk)
-        · rcases e2 k hk with h | h
-          · left; exact h
-          · right; exact cover_keep k h
-
 theorem peerOK_congr {s s' : State} {p : Peer} (ho : s'.objs = s.objs) (hd : s'.dead = s.dead)
     (hb : s'.bag = s.bag) (h : PeerOK s p) : PeerOK s' p := by
-  unfold PeerOK Settled Live Cover at *
+  unfold PeerOK ExactPending TopicCover at *
   rw [ho, hd, hb]
   exact h
-
-/-- a heartbeat (or `Command(nil)`) on one peer -/
-theorem peerOK_tick {s : State} {p : Peer} {o : Outcome} (hI : Inv s) (hP : PeerOK s p)
-    (hO : p.conn = .down → DyingPending s) : PeerOK s (command s.objs id p o) := by
-  unfold command
-  cases hconn : p.conn <;> cases o <;> simp only [PeerOK] <;> intro hup <;> try (simp at hup)
-  · refine ⟨?_, ?_⟩
-    · intro x hx
-      exact (mem_callbackRegs s.objs hI.chanTopic _).mpr ⟨x, hx.1.1, rfl⟩
-    · intro k hk
-      obtain ⟨x, hx, rfl⟩ := (mem_callbackRegs s.objs hI.chanTopic _).mp hk
-      by_cases hxd : x ∈ s.dead
-      · right; exact ⟨x, hO hconn x hx hxd, hxd, rfl, Or.inl rfl⟩
-      · left; exact ⟨x, ⟨hx, hxd⟩, rfl⟩
-  · exact hP hconn
 
 theorem hasKey_iff (objs : List Ref) (t c : String) :
     hasKey objs t c = true ↔ ∃ r ∈ objs, r.topic = t ∧ r.chan = c := by
   simp [hasKey]
 
-/-- creating an object (added to the maps and to the bag) -/
-theorem inv_create {s : State} (hI : Inv s) (r0 : Ref)
-    (hct : r0.chan ≠ "" → ∃ T ∈ s.objs, T.chan = "" ∧ T.topic = r0.topic) (g : Nat) :
+theorem key_eq (r : Ref) (k : Key) : r.key = k ↔ r.topic = k.1 ∧ r.chan = k.2 := by
+  constructor
+  · intro h; subst h; exact ⟨rfl, rfl⟩
+  · intro ⟨h1, h2⟩; exact Prod.ext h1 h2
+
+/-- the peer-local effect of consuming notification `r` with outcome `o` -/
+theorem peerOK_notify {s : State} {r : Ref} {p : Peer} {o : Outcome} (hP : PeerOK s p) (hr : r ∈ s.bag) :
+    PeerOK { s with bag := s.bag.erase r, peers := [] }
+      (command s.objs s.dead
+        (if nameLive s.objs s.dead r.topic r.chan then register r.topic r.chan else unregister r.topic r.chan) p o) := by
+  -- pending notifications after the step
+  have exact_old : ∀ k, ExactPending s k → ¬ ExactPending { s with bag := s.bag.erase r, peers := [] } k →
+      k = (r.topic, r.chan) := by
+    intro k ⟨x, hx, h1, h2⟩ hn
+    by_cases hxr : x = r
+    · subst hxr; exact Prod.ext h1.symm h2.symm
+    · exact absurd ⟨x, (List.mem_erase_of_ne hxr).mpr hx, h1, h2⟩ hn
+  have exact_sub : ∀ k, ExactPending { s with bag := s.bag.erase r, peers := [] } k → ExactPending s k := by
+    intro k ⟨x, hx, h1, h2⟩; exact ⟨x, List.mem_of_mem_erase hx, h1, h2⟩
+  by_cases hlive : NameLive s.objs s.dead (r.topic, r.chan)
+  · -- REGISTER
+    have hb : nameLive s.objs s.dead r.topic r.chan = true := (nameLive_iff _ _ _ _).mpr hlive
+    simp only [hb, if_true]
+    have new_keys : ∀ k, (k = (r.topic, r.chan) ∨ k = (r.topic, "")) → NameLive s.objs s.dead k := by
+      intro k hk
+      rcases hk with rfl | rfl
+      · exact hlive
+      · exact ⟨hlive.1, Or.inl rfl⟩
+    have old_keys : ∀ k, (NameLive s.objs s.dead k ∨ ExactPending s k ∨ TopicCover s k) →
+        NameLive s.objs s.dead k ∨ ExactPending { s with bag := s.bag.erase r, peers := [] } k ∨
+          TopicCover { s with bag := s.bag.erase r, peers := [] } k := by
+      intro k h
+      rcases h with h | h | h
+      · exact Or.inl h
+      · by_cases hn : ExactPending { s with bag := s.bag.erase r, peers := [] } k
+        · exact Or.inr (Or.inl hn)
+        · rw [exact_old k h hn]; exact Or.inl hlive
+      · obtain ⟨h1, ⟨x, hx, hx1, hx2⟩, h3, h4⟩ := h
+        by_cases hxr : x = r
+        · subst hxr
+          exfalso
+          apply h3
+          have := hlive.1
+          rw [← hx1]; exact this
+        · exact Or.inr (Or.inr ⟨h1, ⟨x, (List.mem_erase_of_ne hxr).mpr hx, hx1, hx2⟩, h3, h4⟩)
+    unfold command
+    cases hconn : p.conn <;> cases o <;> simp only [PeerOK] <;> intro hup <;> try (simp at hup)
+    · refine ⟨?_, ?_⟩
+      · intro k hk _
+        rw [mem_register]
+        exact Or.inr (Or.inr ((mem_callbackRegs _ _ _).mpr hk))
+      · intro k hk
+        rw [mem_register] at hk
+        rcases hk with hk | hk | hk
+        · exact Or.inl (new_keys k (Or.inl hk))
+        · exact Or.inl (new_keys k (Or.inr hk))
+        · exact Or.inl ((mem_callbackRegs _ _ _).mp hk)
+    · have ⟨e1, e2⟩ := hP hconn
+      refine ⟨?_, ?_⟩
+      · intro k hk hn
+        rw [mem_register]
+        by_cases hold : ExactPending s k
+        · exact Or.inl (exact_old k hold hn)
+        · exact Or.inr (Or.inr (e1 k hk hold))
+      · intro k hk
+        rw [mem_register] at hk
+        rcases hk with hk | hk | hk
+        · exact Or.inl (new_keys k (Or.inl hk))
+        · exact Or.inl (new_keys k (Or.inr hk))
+        · exact old_keys k (e2 k hk)
+  · -- UNREGISTER
+    have hb : nameLive s.objs s.dead r.topic r.chan = false := by
+      cases h : nameLive s.objs s.dead r.topic r.chan
+      · rfl
+      · exact absurd ((nameLive_iff _ _ _ _).mp h) hlive
+    simp only [hb, Bool.false_eq_true, if_false]
+    -- a live name is never removed by this UNREGISTER
+    have not_removed : ∀ k, NameLive s.objs s.dead k →
+        (if r.chan = "" then k.1 ≠ r.topic else k ≠ (r.topic, r.chan)) := by
+      intro k hk
+      split
+      · rename_i hc
+        intro heq
+        apply hlive
+        refine ⟨?_, Or.inl hc⟩
+        have := hk.1
+        rw [heq] at this; exact this
+      · intro heq; rw [heq] at hk; exact hlive hk
+    have old_keys : ∀ k, (NameLive s.objs s.dead k ∨ ExactPending s k ∨ TopicCover s k) →
+        (if r.chan = "" then k.1 ≠ r.topic else k ≠ (r.topic, r.chan)) →
+        NameLive s.objs s.dead k ∨ ExactPending { s with bag := s.bag.erase r, peers := [] } k ∨
+          TopicCover { s with bag := s.bag.erase r, peers := [] } k := by
+      intro k h hrem
+      rcases h with h | h | h
+      · exact Or.inl h
+      · by_cases hn : ExactPending { s with bag := s.bag.erase r, peers := [] } k
+        · exact Or.inr (Or.inl hn)
+        · have hk := exact_old k h hn
+          exfalso
+          split at hrem
+          · exact hrem (by rw [hk])
+          · exact hrem hk
+      · obtain ⟨h1, ⟨x, hx, hx1, hx2⟩, h3, h4⟩ := h
+        by_cases hxr : x = r
+        · subst hxr
+          exfalso
+          rw [if_pos hx2] at hrem
+          exact hrem hx1.symm
+        · exact Or.inr (Or.inr ⟨h1, ⟨x, (List.mem_erase_of_ne hxr).mpr hx, hx1, hx2⟩, h3, h4⟩)
+    unfold command
+    cases hconn : p.conn <;> cases o <;> simp only [PeerOK] <;> intro hup <;> try (simp at hup)
+    · refine ⟨?_, ?_⟩
+      · intro k hk _
+        rw [mem_unregister]
+        exact ⟨(mem_callbackRegs _ _ _).mpr hk, not_removed k hk⟩
+      · intro k hk
+        rw [mem_unregister] at hk
+        exact Or.inl ((mem_callbackRegs _ _ _).mp hk.1)
+    · have ⟨e1, e2⟩ := hP hconn
+      refine ⟨?_, ?_⟩
+      · intro k hk hn
+        rw [mem_unregister]
+        refine ⟨?_, not_removed k hk⟩
+        by_cases hold : ExactPending s k
+        · have := exact_old k hold hn
+          rw [this] at hk
+          exact absurd hk hlive
+        · exact e1 k hk hold
+      · intro k hk
+        rw [mem_unregister] at hk
+        exact old_keys k (e2 k hk.1) hk.2
+
+/-- a heartbeat (or `Command(nil)`) on one peer -/
+theorem peerOK_tick {s : State} {p : Peer} {o : Outcome} (hP : PeerOK s p) :
+    PeerOK s (command s.objs s.dead id p o) := by
+  unfold command
+  cases hconn : p.conn <;> cases o <;> simp only [PeerOK] <;> intro hup <;> try (simp at hup)
+  · exact ⟨fun k hk _ => (mem_callbackRegs _ _ _).mpr hk, fun k hk => Or.inl ((mem_callbackRegs _ _ _).mp hk)⟩
+  · exact hP hconn
+
+/-- creating an object (added to the maps and to the bag) whose key is new -/
+theorem inv_create {s : State} (hI : Inv s) (r0 : Ref) (hnew : ∀ x ∈ s.objs, x.key ≠ r0.key)
+    (hct : r0.chan ≠ "" → ∃ T ∈ s.objs, T.chan = "" ∧ T.topic = r0.topic)
+    (hnotopic : r0.chan = "" → ∀ x ∈ s.objs, x.topic ≠ r0.topic) (g : Nat) :
     Inv { s with objs := s.objs ++ [r0], bag := r0 :: s.bag, nextGen := g } := by
+  have live_old : ∀ k, k ≠ r0.key → NameLive (s.objs ++ [r0]) s.dead k → NameLive s.objs s.dead k := by
+    intro k hne ⟨⟨T, hT, hTc, hTt, hTd⟩, hch⟩
+    have hT' : T ∈ s.objs := by
+      simp at hT
+      rcases hT with hT | rfl
+      · exact hT
+      · -- the new object is the topic of `k`: then `k` is a channel key of a brand-new topic: impossible
+        exfalso
+        rcases hch with h | ⟨x, hx, hxt, hxc, _⟩
+        · exact hne (Prod.ext (by simp [Ref.key, hTt]) (by simp [Ref.key, hTc, h]))
+        · simp at hx
+          rcases hx with hx | rfl
+          · exact hnotopic hTc x hx (by rw [hxt, hTt])
+          · exact hne (Prod.ext (by simp [Ref.key, hTt]) (by simp [Ref.key, hxc]))
+    refine ⟨⟨T, hT', hTc, hTt, hTd⟩, ?_⟩
+    rcases hch with h | ⟨x, hx, hxt, hxc, hxd⟩
+    · exact Or.inl h
+    · simp at hx
+      rcases hx with hx | rfl
+      · exact Or.inr ⟨x, hx, hxt, hxc, hxd⟩
+      · exact absurd (Prod.ext hxt hxc) (Ne.symm hne)
   refine ⟨?_, ?_, ?_⟩
-  · intro r hr hd
-    simp at hr
-    rcases hr with rfl | hr
-    · simp
-    · simp [hI.pendingLive r hr hd]
   · intro r hr hc
     simp at hr
     rcases hr with hr | rfl
@@ -243,39 +229,72 @@ theorem inv_create {s : State} (hI : Inv s) (r0 : Ref)
       exact ⟨T, by simp [hT], h1, h2⟩
     · obtain ⟨T, hT, h1, h2⟩ := hct hc
       exact ⟨T, by simp [hT], h1, h2⟩
+  · intro x hx y hy hxy
+    simp at hx hy
+    rcases hx with hx | rfl <;> rcases hy with hy | rfl
+    · exact hI.uniq x hx y hy hxy
+    · exact absurd hxy (hnew x hx)
+    · exact absurd hxy.symm (hnew y hy)
+    · rfl
   · intro p hp hup
     have ⟨e1, e2⟩ := hI.peers p hp hup
     refine ⟨?_, ?_⟩
-    · intro x ⟨⟨hxo, hxd⟩, hxb⟩
-      simp at hxb hxo
-      have hxo' : x ∈ s.objs := by
-        rcases hxo with h | h
-        · exact h
-        · exact absurd h hxb.1
-      exact e1 x ⟨⟨hxo', hxd⟩, hxb.2⟩
+    · intro k hk hn
+      have hne : k ≠ r0.key := by
+        intro he; apply hn; exact ⟨r0, by simp, by rw [he]; rfl, by rw [he]; rfl⟩
+      refine e1 k (live_old k hne hk) ?_
+      intro ⟨x, hx, h1, h2⟩
+      exact hn ⟨x, by simp [hx], h1, h2⟩
     · intro k hk
-      rcases e2 k hk with ⟨x, ⟨hxo, hxd⟩, hxk⟩ | ⟨x, hx, hd, ht, hch⟩
-      · left; exact ⟨x, ⟨by simp [hxo], hxd⟩, hxk⟩
-      · right; exact ⟨x, by simp [hx], hd, ht, hch⟩
+      rcases e2 k hk with ⟨⟨T, hT, h1, h2, h3⟩, hch⟩ | ⟨x, hx, h1, h2⟩ | ⟨h1, ⟨x, hx, hx1, hx2⟩, h3, ⟨y, hy, hyk, hyd⟩⟩
+      · left
+        refine ⟨⟨T, by simp [hT], h1, h2, h3⟩, ?_⟩
+        rcases hch with h | ⟨x, hx, a, b, c⟩
+        · exact Or.inl h
+        · exact Or.inr ⟨x, by simp [hx], a, b, c⟩
+      · right; left; exact ⟨x, by simp [hx], h1, h2⟩
+      · right; right
+        refine ⟨h1, ⟨x, by simp [hx], hx1, hx2⟩, ?_, ⟨y, by simp [hy], hyk, hyd⟩⟩
+        intro ⟨T, hT, hTc, hTt, hTd⟩
+        simp at hT
+        rcases hT with hT | rfl
+        · exact h3 ⟨T, hT, hTc, hTt, hTd⟩
+        · -- the new object is a topic named like the topic of channel `y`, which is in the maps: impossible
+          have : y.topic = k.1 := by rw [← hyk]; rfl
+          exact hnotopic hTc y hy (by rw [this, hTt])
 
-theorem inv_step {s s' : State} {st : Step} (hI : Inv s) (hO : Orderly s st) (hs : step s st = some s') :
-    Inv s' := by
+theorem inv_step {s s' : State} {st : Step} (hI : Inv s) (hs : step s st = some s') : Inv s' := by
   cases st with
   | createTopic t =>
     simp only [step] at hs
     split at hs; · simp at hs
+    rename_i hk
     simp at hs; subst hs
-    exact inv_create hI ⟨t, "", s.nextGen⟩ (fun h => absurd rfl h) _
+    have hno : ∀ x ∈ s.objs, ¬ (x.topic = t ∧ x.chan = "") := by
+      intro x hx hc
+      exact hk ((hasKey_iff _ _ _).mpr ⟨x, hx, hc.1, hc.2⟩)
+    refine inv_create hI ⟨t, "", s.nextGen⟩ ?_ (fun h => absurd rfl h) ?_ _
+    · intro x hx he
+      exact hno x hx ((key_eq x _).mp he)
+    · intro _ x hx hxt
+      by_cases hc : x.chan = ""
+      · exact hno x hx ⟨hxt, hc⟩
+      · obtain ⟨T, hT, h1, h2⟩ := hI.chanTopic x hx hc
+        exact hno T hT ⟨by rw [h2, hxt], h1⟩
   | createChan t c =>
     simp only [step] at hs
     split at hs; · simp at hs
+    rename_i hc
     split at hs; · simp at hs
-    rename_i hc hk
+    rename_i hk
     split at hs; · simp at hs
+    rename_i hk2
     simp at hs; subst hs
     simp at hk
     obtain ⟨T, hT, h1, h2⟩ := (hasKey_iff s.objs t "").mp hk
-    exact inv_create hI ⟨t, c, s.nextGen⟩ (fun _ => ⟨T, hT, h2, h1⟩) _
+    refine inv_create hI ⟨t, c, s.nextGen⟩ ?_ (fun _ => ⟨T, hT, h2, h1⟩) (fun h => absurd h hc) _
+    intro x hx he
+    exact hk2 ((hasKey_iff _ _ _).mpr ⟨x, hx, ((key_eq x _).mp he).1, ((key_eq x _).mp he).2⟩)
   | delBegin r =>
     simp only [step] at hs
     split at hs; · simp at hs
@@ -284,25 +303,60 @@ theorem inv_step {s s' : State} {st : Step} (hI : Inv s) (hO : Orderly s st) (hs
     rename_i hrd
     simp at hs; subst hs
     simp at hro hrd
-    refine ⟨?_, hI.chanTopic, ?_⟩
-    · intro x hx hd
-      simp at hx hd
-      rcases hx with rfl | hx
-      · exact absurd rfl hd.1
-      · exact hI.pendingLive x hx hd.2
-    · intro p hp hup
-      have ⟨e1, e2⟩ := hI.peers p hp hup
-      refine ⟨?_, ?_⟩
-      · intro x ⟨⟨hxo, hxd⟩, hxb⟩
-        simp at hxd hxb
-        exact e1 x ⟨⟨hxo, hxd.2⟩, hxb.2⟩
-      · intro k hk
-        rcases e2 k hk with ⟨x, ⟨hxo, hxd⟩, hxk⟩ | ⟨x, hx, hd, ht, hch⟩
-        · by_cases hxr : x = r
-          · subst hxr
-            right; exact ⟨x, by simp, by simp, by simp [← hxk, Ref.key], Or.inl (by simp [← hxk, Ref.key])⟩
-          · left; exact ⟨x, ⟨hxo, by simp [hxd, hxr]⟩, hxk⟩
-        · right; exact ⟨x, by simp [hx], by simp [hd], ht, hch⟩
+    have tl_anti : ∀ t, TopicLive s.objs (r :: s.dead) t → TopicLive s.objs s.dead t := by
+      intro t ⟨T, hT, h1, h2, h3⟩
+      exact ⟨T, hT, h1, h2, fun h => h3 (by simp [h])⟩
+    have nl_anti : ∀ k, NameLive s.objs (r :: s.dead) k → NameLive s.objs s.dead k := by
+      intro k ⟨h1, h2⟩
+      refine ⟨tl_anti _ h1, ?_⟩
+      rcases h2 with h | ⟨x, hx, a, b, c⟩
+      · exact Or.inl h
+      · exact Or.inr ⟨x, hx, a, b, fun h => c (by simp [h])⟩
+    refine ⟨hI.chanTopic, hI.uniq, ?_⟩
+    intro p hp hup
+    have ⟨e1, e2⟩ := hI.peers p hp hup
+    refine ⟨?_, ?_⟩
+    · intro k hk hn
+      refine e1 k (nl_anti k hk) ?_
+      intro ⟨x, hx, h1, h2⟩
+      exact hn ⟨x, by simp [hx], h1, h2⟩
+    · intro k hk
+      rcases e2 k hk with hl | ⟨x, hx, h1, h2⟩ | ⟨h1, ⟨x, hx, hx1, hx2⟩, h3, ⟨y, hy, hyk, hyd⟩⟩
+      · by_cases hrk : r.key = k
+        · right; left
+          exact ⟨r, by simp, ((key_eq r k).mp hrk).1, ((key_eq r k).mp hrk).2⟩
+        · obtain ⟨⟨T, hT, hTc, hTt, hTd⟩, hch⟩ := hl
+          by_cases hTr : T = r
+          · -- the topic of `k` starts exiting; `k` is a channel key (else r.key = k)
+            subst hTr
+            have hk2 : k.2 ≠ "" := by
+              intro h; exact hrk (Prod.ext hTt (by simp [Ref.key, hTc, h]))
+            rcases hch with h | ⟨x, hx, hxt, hxc, hxd⟩
+            · exact absurd h hk2
+            · right; right
+              refine ⟨hk2, ⟨T, by simp, hTt, hTc⟩, ?_, ⟨x, hx, Prod.ext hxt hxc, ?_⟩⟩
+              · intro ⟨T', hT', h1, h2, h3⟩
+                have : T' = T := hI.uniq T' hT' T hT (Prod.ext (by simp [Ref.key, h2, hTt]) (by simp [Ref.key, h1, hTc]))
+                subst this
+                exact h3 (by simp)
+              · intro hmem
+                simp at hmem
+                rcases hmem with rfl | hmem
+                · exact hk2 (by rw [← hxc, hTc])
+                · exact hxd hmem
+          · have hTd' : T ∉ r :: s.dead := by simp [hTr, hTd]
+            rcases hch with h | ⟨x, hx, hxt, hxc, hxd⟩
+            · left; exact ⟨⟨T, hT, hTc, hTt, hTd'⟩, Or.inl h⟩
+            · by_cases hxr : x = r
+              · subst hxr; exact absurd (Prod.ext hxt hxc) hrk
+              · left; exact ⟨⟨T, hT, hTc, hTt, hTd'⟩, Or.inr ⟨x, hx, hxt, hxc, by simp [hxr, hxd]⟩⟩
+      · right; left; exact ⟨x, by simp [hx], h1, h2⟩
+      · by_cases hyr : y = r
+        · subst hyr
+          right; left
+          exact ⟨y, by simp, ((key_eq y k).mp hyk).1, ((key_eq y k).mp hyk).2⟩
+        · right; right
+          exact ⟨h1, ⟨x, by simp [hx], hx1, hx2⟩, fun h => h3 (tl_anti _ h), ⟨y, hy, hyk, by simp [hyr, hyd]⟩⟩
   | delUnlink r =>
     simp only [step] at hs
     split at hs; · simp at hs
@@ -313,10 +367,28 @@ theorem inv_step {s s' : State} {st : Step} (hI : Inv s) (hO : Orderly s st) (hs
     rename_i hguard
     simp at hs; subst hs
     simp at hro hrd
+    have tl_iff : ∀ t, TopicLive (s.objs.erase r) s.dead t ↔ TopicLive s.objs s.dead t := by
+      intro t
+      constructor
+      · intro ⟨T, hT, a, b, c⟩; exact ⟨T, List.mem_of_mem_erase hT, a, b, c⟩
+      · intro ⟨T, hT, a, b, c⟩
+        have hne : T ≠ r := by intro he; subst he; exact c hrd
+        exact ⟨T, (List.mem_erase_of_ne hne).mpr hT, a, b, c⟩
+    have nl_iff : ∀ k, NameLive (s.objs.erase r) s.dead k ↔ NameLive s.objs s.dead k := by
+      intro k
+      constructor
+      · intro ⟨h1, h2⟩
+        refine ⟨(tl_iff _).mp h1, ?_⟩
+        rcases h2 with h | ⟨x, hx, a, b, c⟩
+        · exact Or.inl h
+        · exact Or.inr ⟨x, List.mem_of_mem_erase hx, a, b, c⟩
+      · intro ⟨h1, h2⟩
+        refine ⟨(tl_iff _).mpr h1, ?_⟩
+        rcases h2 with h | ⟨x, hx, a, b, c⟩
+        · exact Or.inl h
+        · have hne : x ≠ r := by intro he; subst he; exact c hrd
+          exact Or.inr ⟨x, (List.mem_erase_of_ne hne).mpr hx, a, b, c⟩
     refine ⟨?_, ?_, ?_⟩
-    · intro x hx hd
-      have hne : x ≠ r := by intro he; subst he; exact hd hrd
-      exact (List.mem_erase_of_ne hne).mpr (hI.pendingLive x hx hd)
     · intro x hx hc
       have hxo : x ∈ s.objs := List.mem_of_mem_erase hx
       obtain ⟨T, hT, h1, h2⟩ := hI.chanTopic x hxo hc
@@ -328,39 +400,38 @@ theorem inv_step {s s' : State} {st : Step} (hI : Inv s) (hO : Orderly s st) (hs
         refine ⟨by simp [isTopic, h1], x, hxo, ?_⟩
         simp [isTopic, hc, h2]
       · exact ⟨T, (List.mem_erase_of_ne hTr).mpr hT, h1, h2⟩
+    · intro x hx y hy hxy
+      exact hI.uniq x (List.mem_of_mem_erase hx) y (List.mem_of_mem_erase hy) hxy
     · intro p hp hup
       have ⟨e1, e2⟩ := hI.peers p hp hup
-      refine ⟨?_, ?_⟩
-      · intro x ⟨⟨hxo, hxd⟩, hxb⟩
-        exact e1 x ⟨⟨List.mem_of_mem_erase hxo, hxd⟩, hxb⟩
-      · intro k hk
-        rcases e2 k hk with ⟨x, ⟨hxo, hxd⟩, hxk⟩ | h
-        · have hne : x ≠ r := by intro he; subst he; exact hxd hrd
-          left; exact ⟨x, ⟨(List.mem_erase_of_ne hne).mpr hxo, hxd⟩, hxk⟩
-        · right; exact h
+      refine ⟨fun k hk hn => e1 k ((nl_iff k).mp hk) hn, ?_⟩
+      intro k hk
+      rcases e2 k hk with hl | hx | ⟨h1, h2, h3, ⟨y, hy, hyk, hyd⟩⟩
+      · exact Or.inl ((nl_iff k).mpr hl)
+      · exact Or.inr (Or.inl hx)
+      · have hne : y ≠ r := by intro he; subst he; exact hyd hrd
+        exact Or.inr (Or.inr ⟨h1, h2, fun h => h3 ((tl_iff _).mp h), ⟨y, (List.mem_erase_of_ne hne).mpr hy, hyk, hyd⟩⟩)
   | notify r outs =>
     simp only [step] at hs
     split at hs; · simp at hs
     rename_i hrb
     simp only [Option.some.injEq] at hs; subst hs
     simp at hrb
-    refine ⟨?_, hI.chanTopic, ?_⟩
-    · intro x hx hd
-      exact hI.pendingLive x (List.mem_of_mem_erase hx) hd
-    · intro q hq
-      obtain ⟨p, hp, o, rfl⟩ := mem_mapOutcomes hq
-      exact peerOK_congr rfl rfl rfl (peerOK_notify (o := o) hI hp hrb outs hO)
+    refine ⟨hI.chanTopic, hI.uniq, ?_⟩
+    intro q hq
+    obtain ⟨p, hp, o, rfl⟩ := mem_mapOutcomes hq
+    exact peerOK_congr rfl rfl rfl (peerOK_notify (o := o) (hI.peers p hp) hrb)
   | tick outs =>
     simp only [step] at hs
     simp at hs; subst hs
-    refine ⟨hI.pendingLive, hI.chanTopic, ?_⟩
+    refine ⟨hI.chanTopic, hI.uniq, ?_⟩
     intro q hq
     obtain ⟨p, hp, o, rfl⟩ := mem_mapOutcomes hq
-    exact peerOK_congr rfl rfl rfl (peerOK_tick (s := s) hI (hI.peers p hp) (fun hd => hO ⟨p, hp, hd⟩))
+    exact peerOK_congr rfl rfl rfl (peerOK_tick (s := s) (hI.peers p hp))
   | lookupdDrop a =>
     simp only [step] at hs
     simp at hs; subst hs
-    refine ⟨hI.pendingLive, hI.chanTopic, ?_⟩
+    refine ⟨hI.chanTopic, hI.uniq, ?_⟩
     intro q hq
     simp only [List.mem_map] at hq
     obtain ⟨p, hp, rfl⟩ := hq
@@ -373,33 +444,30 @@ theorem inv_step {s s' : State} {st : Step} (hI : Inv s) (hO : Orderly s st) (hs
     simp only [step] at hs
     split at hs; · simp at hs
     simp at hs; subst hs
-    refine ⟨hI.pendingLive, hI.chanTopic, ?_⟩
+    refine ⟨hI.chanTopic, hI.uniq, ?_⟩
     intro q hq
     simp at hq
     rcases hq with hq | rfl
     · exact hI.peers q hq
-    · exact peerOK_congr rfl rfl rfl
-        (peerOK_tick (s := s) hI (p := ⟨a, .down, []⟩) (fun hup => by simp at hup) (fun _ => hO))
+    · exact peerOK_congr rfl rfl rfl (peerOK_tick (s := s) (p := ⟨a, .down, []⟩) (fun hup => by simp at hup))
   | removePeer a =>
     simp only [step] at hs
     simp at hs; subst hs
-    refine ⟨hI.pendingLive, hI.chanTopic, ?_⟩
+    refine ⟨hI.chanTopic, hI.uniq, ?_⟩
     intro q hq
     exact hI.peers q (List.mem_filter.mp hq).1
 
 theorem inv_init : Inv State.init := by
   refine ⟨?_, ?_, ?_⟩ <;> simp [State.init, ChanHasTopic]
 
-/-- a schedule all of whose steps are enabled and orderly -/
-def OrderlyRun : State → List Step → State → Prop
-  | s, [], s' => s' = s
-  | s, st :: rest, s' => ∃ s1, step s st = some s1 ∧ Orderly s st ∧ OrderlyRun s1 rest s'
-
-theorem inv_run {s s' : State} {steps : List Step} (hI : Inv s) (hr : OrderlyRun s steps s') : Inv s' := by
+theorem inv_run {s s' : State} {steps : List Step} (hI : Inv s) (hr : run s steps = some s') : Inv s' := by
   induction steps generalizing s with
-  | nil => simp [OrderlyRun] at hr; subst hr; exact hI
+  | nil => simp [run] at hr; subst hr; exact hI
   | cons st rest ih =>
-    obtain ⟨s1, h1, hO, h2⟩ := hr
-    exact ih (inv_step hI hO h1) h2
+    simp only [run] at hr
+    split at hr
+    · simp at hr
+    · rename_i s1 h1
+      exact ih (inv_step hI h1) hr
 
 end Nsq.Proofs.LookupSync
